@@ -70,6 +70,36 @@ func.func @f(%x: i8, %c: i1) -> i8 {
 ^exit2(%r: i8):
   func.return %r : i8
 }""",
+    "loop_carried_pure": """
+func.func @f(%x: i8, %n: i8) -> i8 {
+  %one = arith.constant 1 : i8
+  %zero = arith.constant 0 : i8
+  cf.br ^body(%zero, %x, %zero : i8, i8, i8)
+^body(%i: i8, %acc: i8, %junk: i8):
+  %acc2 = arith.addi %acc, %x : i8
+  %junk2 = arith.muli %junk, %acc : i8
+  %i2 = arith.addi %i, %one : i8
+  %more = arith.cmpi slt, %i2, %n : i8
+  cf.cond_br %more, ^body(%i2, %acc2, %junk2 : i8, i8, i8), ^exit(%acc : i8)
+^exit(%r: i8):
+  func.return %r : i8
+}""",
+    "loop_carried_two_hops": """
+func.func @f(%x: i8, %n: i8) -> i8 {
+  %one = arith.constant 1 : i8
+  %zero = arith.constant 0 : i8
+  cf.br ^body(%zero, %x, %x : i8, i8, i8)
+^body(%i: i8, %p: i8, %q: i8):
+  %p2 = arith.xori %q, %x : i8
+  %q2 = arith.addi %p, %one : i8
+  %i2 = arith.addi %i, %one : i8
+  %more = arith.cmpi slt, %i2, %n : i8
+  cf.cond_br %more, ^latch, ^exit(%p : i8)
+^latch:
+  cf.br ^body(%i2, %p2, %q2 : i8, i8, i8)
+^exit(%r: i8):
+  func.return %r : i8
+}""",
     "unreachable_blocks": """
 func.func private @ext(i8) -> i8
 func.func @f(%x: i8) -> i8 {
